@@ -50,7 +50,9 @@ def workers() -> int:
 
 
 def src_dir() -> str:
-    return os.path.abspath(os.environ.get("SCHWIFTY_SRC", "/repo"))
+    # realpath: code objects carry the path the import system used; a symlinked SCHWIFTY_SRC must not make the
+    # package-prefix tests (instrumentation, lock seam) miss every frame
+    return os.path.realpath(os.environ.get("SCHWIFTY_SRC", "/repo"))
 
 
 def run_seed(vseed: int, prop: str, index: int) -> int:
